@@ -155,6 +155,8 @@ package ledger
 //@   property C35 C38
 //@   requires h.store != nil
 //@   requires (property == "address" || property == "account") && operator != "$in" ==> is(value, string)
+//@   requires (property == "first_usage" || property == "insertion_date" || property == "updated_at") ==> ordOps(operator)
+//@   requires (reMatch(balanceRegex, property) || property == "balance") ==> numMapOps(operator)
 //@   modifies qWhere, qWhereCount, qOrderExpr
 //@   ensures (property != "address" && property != "account" && property != "first_usage" && property != "insertion_date" && property != "updated_at" && (reMatch(balanceRegex, property) || property == "balance") && opts.PIT != nil && !tzero(deref(opts.PIT)) && h.store.ledger.Features["MOVES_HISTORY"] != "ON") ==> err != nil && isErr(err, ErrMissingFeature)
 //@   ensures (property != "address" && property != "account" && property != "first_usage" && property != "insertion_date" && property != "updated_at" && (reMatch(balanceRegex, property) || property == "balance") && opts.PIT != nil && !tzero(deref(opts.PIT)) && h.store.ledger.Features["MOVES_HISTORY_POST_COMMIT_EFFECTIVE_VOLUMES"] != "SYNC") ==> err != nil && isErr(err, ErrMissingFeature)
@@ -163,4 +165,27 @@ package ledger
 //@   property C38
 //@   requires property == "reverted" ==> is(value, bool)
 //@   requires (property == "account" || property == "source" || property == "destination") && operator != "$in" ==> is(value, string)
+//@   requires property == "id" ==> ordOps(operator)
+//@   requires property == "reference" ==> strOps(operator)
+//@   requires (property == "timestamp" || property == "inserted_at" || property == "updated_at" || property == "reverted_at") ==> ordOps(operator)
 //@   note the requires are what queries.TypeBoolean / TypeString.ValidateValue establish for these properties (entity schema TransactionSchema); the walk of the filter tree that connects them (go-libs query.Builder) is not under contract
+
+
+// The operator requires of the ResolveFilter contracts are the operator lists of the entity schemas (queries/resources.go,
+// queries.Type*.Operators, under contract in internal/queries): what validateFilters lets through for the property.
+//@ func (h logsResourceHandler) ResolveFilter(q common.ResourceQuery[any], operator string, property string, value any) (s string, args []any, err error)
+//@   property C38
+//@   requires property == "date" ==> ordOps(operator)
+//@   requires property == "id" ==> ordOps(operator)
+//@   requires property == "type" ==> strOps(operator)
+
+//@ func (h schemasResourceHandler) ResolveFilter(q common.ResourceQuery[any], operator string, property string, value any) (s string, args []any, err error)
+//@   property C38
+//@   requires property == "created_at" ==> ordOps(operator)
+//@   requires property == "version" ==> strOps(operator)
+
+//@ func (h volumesResourceHandler) ResolveFilter(q common.ResourceQuery[ledger.GetVolumesOptions], operator string, property string, value any) (s string, args []any, err error)
+//@   property C38
+//@   requires (property == "address" || property == "account") && operator != "$in" ==> is(value, string)
+//@   requires property == "first_usage" ==> ordOps(operator)
+//@   requires (reMatch(balanceRegex, property) || property == "balance") ==> numMapOps(operator)
